@@ -158,12 +158,12 @@ _p(
 _p(
     "C04",
     level="other",
-    technique="contract-based deductive verification of the closed-form clauses (z3); the elementwise 7% bands only by a bounded run-time contract (Gauss-Hermite quadrature), labelled bounded; Monte-Carlo bands not covered",
-    trusted_base=SMT + ["bounded/c04_quadrature.py (bounded stand-in, not proof)"],
+    technique="contract-based deductive verification of the closed-form clauses (z3); the statistical bands only by bounded run-time contracts on the real functions (Gauss-Hermite quadrature for the elementwise ops, fixed-seed Monte-Carlo with 2^20 elements for softmax / attention / cross-entropy / norms), labelled bounded",
+    trusted_base=SMT + ["bounded/c04_quadrature.py, bounded/c04_montecarlo.py (bounded stand-ins, not proof)"],
     assumptions=[A1, A2, A7, "d CE_sum / d logits = softmax - onehot (assumed torch fact) for the uniform-logits clause"],
-    components=[comp.script("c04-quadrature", "BOUNDED stand-in", ["{ROOT}/bounded/c04_quadrature.py"])],
-    bounded=["gelu (exact and tanh), silu, silu_glu: output std and input-gradient RMS within 7% of 1 for mult in [1/16,16] -- run-time contract on the real functions by 120-node Gauss-Hermite quadrature on 81 (quick) / 1025 (thorough) multipliers incl. the end points; NOT counted as proved"],
-    uncovered=["Monte-Carlo bands for softmax, attention, cross-entropy with random logits, layer_norm / rms_norm: statements about expectations of transcendental functions of high-dimensional Gaussians; no contract on a function within reach expresses them (a sampling check would be a different technique)"],
+    components=[comp.script("c04-quadrature", "BOUNDED stand-in", ["{ROOT}/bounded/c04_quadrature.py"]), comp.script("c04-montecarlo", "BOUNDED stand-in", ["{ROOT}/bounded/c04_montecarlo.py"])],
+    bounded=["gelu (exact and tanh), silu, silu_glu: output std and input-gradient RMS within 7% of 1 for mult in [1/16,16] -- run-time contract on the real functions by 120-node Gauss-Hermite quadrature on 81 (quick) / 1025 (thorough) multipliers incl. the end points; NOT counted as proved", "softmax (width 16..4096, mult 1/8..4: output and gradient RMS in [0.55,1.35]), attention (seq 16..1024, head 16..128, mult 1/4..16, causal or not, dropout 0 / 0.3: output and value-gradient RMS in [0.7,1.3]), cross-entropy (vocab 2..1024 / 8192, mult 1/4..4 resp. 1/16..4: logit-gradient RMS in [0.95,1.45], exactly 1 for uniform logits), layer_norm / rms_norm (width 16..4096: within 10% of 1): fixed-seed Monte-Carlo with 2^20 elements per configuration on the grid of bounded/c04_montecarlo.py (192 quick / ~1000 thorough evaluations); NOT counted as proved"],
+    uncovered=["the statistical bands between grid points: expectations of transcendental functions of high-dimensional Gaussians have no closed form a contract could state; they are evaluated, as the property prescribes, on a grid (range end points + geometric interior points)"],
     explanation="PROVED (z3, all mult > 0, all widths): logarithmic_interpolation(alpha, lo, hi) lies between lo and hi for alpha in [0,1] and equals them at the end points; every empirical scale of gelu / silu / silu_glu / softmax (output and input-gradient) lies between its flat and its sharp limit; the cross-entropy logit-gradient scale is V/sqrt(V-1) and gives RMS exactly 1 for uniform logits for every V >= 2; norm gain/bias gradient scales are one-term-per-row (shared with C03). BOUNDED: the 7% bands of the elementwise ops (quadrature). NOT COVERED: the Monte-Carlo bands.",
 )
 
